@@ -1,6 +1,6 @@
 (* Percolator/OnePC.v — invariants of a one-phase-commit transaction that has not fallen back:
    the store applies the whole request in one step, so all keys are committed together. *)
-From Verif Require Export Percolator.Layer2d.
+From Verif Require Export Percolator.Layer2e.
 
 Definition onepcm (s : sys) (T : N) : Prop :=
   hasm s T /\ F s T FTried1 <> 0 /\ F s T FFb1 = 0 /\ F s T FStFb = 0.
